@@ -30,6 +30,8 @@ type faultSession struct {
 	marFail   int
 	lastErr   string
 	lastViol  string
+	interrupted string // model line of a Delete kept in its interrupted state
+	kfSeen    int
 }
 
 func newFaultSession(c Cfg) *faultSession {
@@ -91,6 +93,11 @@ func (fs *faultSession) Exec(line string) (obs, viol string) {
 			}
 		}
 		for idx := 0; idx < 500; idx++ {
+			fs.interrupted = ""
+			heightBefore := -1
+			if m := fs.Trees[slot]; m != nil {
+				heightBefore = int(m.Height())
+			}
 			before := fs.snapshot(slot)
 			oracleBefore := copyMap(fs.Oracle[slot])
 			o1, hit := fs.runWithFault(kind, idx, op)
@@ -104,6 +111,12 @@ func (fs *faultSession) Exec(line string) (obs, viol string) {
 				fs.lastObs = "panic-abort"
 				return "panic-abort", ""
 			}
+			if v := fs.Session.faultReadsViol; v != "" {
+				fs.Session.faultReadsViol = ""
+				fs.aborted = true
+				fs.lastObs = "state-changed"
+				return "state-changed", v
+			}
 			if !strings.HasPrefix(o1, "err") {
 				// fault swallowed, call succeeded: result compared with the model, and the
 				// operation's own oracle applies to what it returned
@@ -116,6 +129,13 @@ func (fs *faultSession) Exec(line string) (obs, viol string) {
 			fs.Oracle[slot] = oracleBefore
 			if after := fs.snapshot(slot); after != before {
 				viol = fs.describeChange(t[2:], kind, idx, op, before, after, oracleBefore)
+				if strings.HasPrefix(viol, "KF-delete-shrink: ") && fs.keepInterrupted(t[2:], heightBefore, slot, oracleBefore) {
+					// the recorded known finding, and the history goes on FROM the state it leaves (a
+					// consistent tree that is taller than its entries warrant: an entry-less top node
+					// over a child, or fewer entries than the height asks for); the model follows
+					knownHits = append(knownHits, knownHit{line, viol})
+					return fs.lastObs, ""
+				}
 				if (strings.HasPrefix(viol, "KF-delete-shrink: ") || strings.HasPrefix(viol, "KF-insert-grow-layer: ")) && backup != nil {
 					// the recorded known finding: note it once, put the tree back as it was and go on
 					// with the fault-free call, so that the rest of the history is still exercised
@@ -133,6 +153,7 @@ func (fs *faultSession) Exec(line string) (obs, viol string) {
 		return "too-many-calls", "operation makes more than 500 fallible calls"
 	}
 	if t[0] != "fault" {
+		fs.interrupted = ""
 		obs, viol = fs.Session.Exec(line)
 		fs.lastObs = obs
 		return
@@ -148,6 +169,11 @@ func (fs *faultSession) Exec(line string) (obs, viol string) {
 		if c, err := m.Clone(fs.ctx); err == nil {
 			backup = &c
 		}
+	}
+	fs.interrupted = ""
+	heightBefore1 := -1
+	if m := fs.Trees[slot]; m != nil {
+		heightBefore1 = int(m.Height())
 	}
 	before := fs.snapshot(slot)
 	oracleBefore := copyMap(fs.Oracle[slot])
@@ -169,6 +195,10 @@ func (fs *faultSession) Exec(line string) (obs, viol string) {
 	fs.Oracle[slot] = oracleBefore
 	if after := fs.snapshot(slot); after != before {
 		viol = fs.describeChange(t[3:], kind, idx, op, before, after, oracleBefore)
+		if strings.HasPrefix(viol, "KF-delete-shrink: ") && fs.keepInterrupted(t[3:], heightBefore1, slot, oracleBefore) {
+			knownHits = append(knownHits, knownHit{line, viol})
+			return fs.lastObs, ""
+		}
 		if (strings.HasPrefix(viol, "KF-delete-shrink: ") || strings.HasPrefix(viol, "KF-insert-grow-layer: ")) && backup != nil {
 			knownHits = append(knownHits, knownHit{line, viol})
 			fs.Trees[slot] = backup
@@ -186,6 +216,30 @@ func (fs *faultSession) Exec(line string) (obs, viol string) {
 		return o2, "retry after the fault cleared: " + v2
 	}
 	return o2, ""
+}
+
+// keepInterrupted: after a Delete that failed in its height reduction, keep the tree as the call
+// left it (every second time), tell the model how many shrink steps had completed, and bring the
+// oracle up to date.  The observation is "kf-del <size> <height>", which the model must give too.
+func (fs *faultSession) keepInterrupted(op []string, heightBefore, slot int, oracleBefore map[uint64]uint64) bool {
+	m := fs.Trees[slot]
+	if m == nil || heightBefore < 0 || op[0] != "del" {
+		return false
+	}
+	fs.kfSeen++
+	if fs.kfSeen%2 == 0 {
+		return false
+	}
+	var k uint64
+	fmt.Sscan(op[2], &k)
+	exp := copyMap(oracleBefore)
+	delete(exp, k)
+	fs.Oracle[slot] = exp
+	fs.noteModified(slot, k)
+	steps := heightBefore - int(m.Height())
+	fs.interrupted = fmt.Sprintf("delns %s %s %s %d", op[1], op[2], op[3], steps)
+	fs.lastObs = fmt.Sprintf("kf-del %d %d", m.Size(), m.Height())
+	return true
 }
 
 // slotOf: the tree whose state an operation can change (its first slot argument)
@@ -219,6 +273,7 @@ func (fs *faultSession) runWithFault(kind string, idx int, op string) (string, b
 		fs.marFail = idx
 	}
 	fs.Session.transientFault = true
+	fs.Session.faultReadsViol = ""
 	o1, v1 := fs.Session.Exec(op)
 	fs.Session.transientFault = false
 	fs.lastErr = o1
@@ -267,6 +322,9 @@ func (fs *faultSession) ModelLine(line string) string {
 	if fs.lastObs == "skipped" || fs.lastObs == "panic-abort" || fs.lastObs == "state-changed" {
 		return "echo " + fs.lastObs
 	}
+	if (t[0] == "fault" || t[0] == "faultall") && fs.interrupted != "" {
+		return fs.interrupted
+	}
 	if t[0] == "fault" {
 		return fs.Session.ModelLine(strings.Join(t[3:], " "))
 	}
@@ -276,7 +334,43 @@ func (fs *faultSession) ModelLine(line string) string {
 	return fs.Session.ModelLine(line)
 }
 
+// genInterruptedDeleteCase: a persisted tree whose height hangs on few top-layer keys; one of
+// them is deleted with every load position failing in turn — the position inside the height
+// reduction leaves the recorded finding's state (entry gone, tree taller than warranted), which
+// the session keeps — and the history goes on from there: diffs in both directions, iteration,
+// cursor walks, lookups, clone, persist + reload, further updates.
+func genInterruptedDeleteCase(r *rand.Rand, cfg Cfg) Case {
+	cfg = noCache(cfg)
+	cfg.KK = "vk"
+	vk := func(id, layer int) uint64 { return uint64(id)<<8 | uint64(layer) }
+	h := 1 + r.Intn(2)
+	var keys []uint64
+	top := vk(500+r.Intn(3)*400, h) // left of, inside, or right of the other keys
+	keys = append(keys, top)
+	for i := 0; i < 3+r.Intn(10); i++ {
+		l := 0
+		if h == 2 && r.Intn(4) == 0 {
+			l = 1
+		}
+		keys = append(keys, vk(600+i*7, l))
+	}
+	ops := []string{"new 0"}
+	for _, k := range keys {
+		ops = append(ops, opIns(0, k, 1))
+	}
+	ops = append(ops, "root 0 0", "load 0 0", "load 0 2", fmt.Sprintf("faultall load del 0 %d 1", top),
+		"stat 0", "iter 0", "diff 2 0", "diff 0 2", fmt.Sprintf("get 0 %d", keys[1]), fmt.Sprintf("cwalk 0 %d ffb", keys[1]),
+		fmt.Sprintf("seek 0 %d", keys[2]), "clone 0 3", "iter 3", "diff 2 3", "root 0 1", "load 1 4", "iter 4", "stat 4", "diff 2 4")
+	if r.Intn(2) == 0 {
+		ops = append(ops, opIns(0, vk(601, 0), 2), "iter 0", opDel(0, keys[1], 1), "iter 0", "stat 0", "root 0 2", "load 2 4", "iter 4")
+	}
+	return Case{cfg, ops}
+}
+
 func genFaultCase(r *rand.Rand, cfg Cfg) Case {
+	if r.Intn(6) == 0 {
+		return genInterruptedDeleteCase(r, cfg)
+	}
 	cfg = noCache(cfg)
 	uni := Universe(r, cfg, 5+r.Intn(50))
 	ops := []string{"new 0"}
